@@ -340,6 +340,74 @@ pub fn dedicated_inputs() -> Vec<(&'static str, Mods, usize)> {
         )],
         8,
     ));
+    // only a RETURN type names a generated vftable struct (impl function and virtual function)
+    out.push((
+        "return-type-of-generated-vftable",
+        vec![(
+            ItemPath::from("kd_r"),
+            Module::new()
+                .with_definitions([
+                    ItemDefinition::new(
+                        (Visibility::Public, "A"),
+                        TypeDefinition::new([
+                            TypeStatement::vftable([Function::new((Visibility::Public, "table_of"), [Argument::ConstSelf]).with_return_type(Type::ident("ZVftable").const_pointer())]),
+                            TypeStatement::field((Visibility::Public, "x"), w()),
+                        ]),
+                    ),
+                    ItemDefinition::new((Visibility::Public, "B"), TypeDefinition::new([vt("v")])),
+                    ItemDefinition::new((Visibility::Public, "Z"), TypeDefinition::new([vt("z")])),
+                ])
+                .with_impls([FunctionBlock::new(
+                    "A",
+                    [
+                        Function::new((Visibility::Public, "g"), [Argument::ConstSelf]).with_attributes([Attribute::address(0x1000_0040)]).with_return_type(Type::ident("BVftable").const_pointer()),
+                        Function::new((Visibility::Public, "s"), []).with_attributes([Attribute::address(0x1000_0080)]).with_return_type(Type::ident("ZVftable").mut_pointer()),
+                    ],
+                )]),
+        )],
+        8,
+    ));
+    // names that differ only in case, across items, fields of generated tables and modules
+    out.push((
+        "names-differing-only-in-case",
+        vec![
+            (
+                ItemPath::from("kd_case"),
+                Module::new().with_definitions([
+                    ItemDefinition::new((Visibility::Public, "Hwnd"), TypeDefinition::new([TypeStatement::field((Visibility::Public, "a"), Type::ident("u32"))])),
+                    ItemDefinition::new((Visibility::Public, "HWND"), TypeDefinition::new([TypeStatement::field((Visibility::Public, "b"), Type::ident("u64"))])),
+                    ItemDefinition::new((Visibility::Public, "hwnd"), TypeDefinition::new([TypeStatement::field((Visibility::Public, "c"), Type::ident("u16"))])),
+                    ItemDefinition::new((Visibility::Public, "HwnD"), EnumDefinition::new(Type::ident("u8"), [EnumStatement::field("A")], [])),
+                    ItemDefinition::new((Visibility::Public, "hWND"), TypeDefinition::new([vt("v"), TypeStatement::field((Visibility::Public, "h"), Type::ident("HWND"))])),
+                    ItemDefinition::new((Visibility::Public, "HWnd"), TypeDefinition::new([vt("w")])),
+                ]),
+            ),
+            (ItemPath::from("kd_CASE"), Module::new().with_definitions([ItemDefinition::new((Visibility::Public, "Hwnd"), TypeDefinition::new([TypeStatement::field((Visibility::Public, "a"), Type::ident("u8"))]))])),
+        ],
+        8,
+    ));
+    // a type with its own vftable block is deferred AFTER the block was processed (a field and a
+    // signature of it name the generated table of a later type)
+    out.push((
+        "owner-deferred-after-its-table",
+        vec![(
+            ItemPath::from("kd_s"),
+            Module::new()
+                .with_definitions([
+                    ItemDefinition::new(
+                        (Visibility::Public, "A"),
+                        TypeDefinition::new([vt("a"), TypeStatement::field((Visibility::Public, "other"), Type::ident("BVftable").const_pointer())]),
+                    ),
+                    ItemDefinition::new((Visibility::Public, "B"), TypeDefinition::new([vt("b"), TypeStatement::field((Visibility::Public, "other"), Type::ident("CVftable").const_pointer())])),
+                    ItemDefinition::new((Visibility::Public, "C"), TypeDefinition::new([vt("c")])),
+                ])
+                .with_impls([
+                    FunctionBlock::new("A", [Function::new((Visibility::Public, "f"), [Argument::ConstSelf, Argument::named("p", Type::ident("CVftable").const_pointer())]).with_attributes([Attribute::address(0x1000_0000)])]),
+                    FunctionBlock::new("B", [Function::new((Visibility::Public, "f"), [Argument::ConstSelf]).with_return_type(Type::ident("AVftable").const_pointer()).with_attributes([Attribute::address(0x1000_0040)])]),
+                ]),
+        )],
+        4,
+    ));
     // user type named like a generated vftable struct, duplicates: consistently rejected
     out.push((
         "user-type-named-like-vftable",
